@@ -52,12 +52,13 @@ def run_job(job):
 
         def new_amv():
             keys = rng.sample(range(nb), rng.randint(1, min(nb, 3)))
-            n = rng.randint(2, 3)
+            shape = rng.choice([(2,), (3,), (2, 2), (2, 3), (3, 2)])
+            n = int(np.prod(shape))
             cont = rng.choice(['list', 'ndarray'])
-            arrs = [np.array([rng.choice([-2, -1, 1, 2, 3]) for _ in range(n)], dtype=np.float64) for _ in keys]
+            arrs = [np.array([rng.choice([-2, -1, 1, 2, 3, 4, 5]) for _ in range(n)], dtype=np.float64).reshape(shape) for _ in keys]
             x = MultiVector.fromkeysvalues(alg, tuple(keys), arrs if cont == 'list' else np.stack(arrs))
             ids = []
-            for lane in range(n):
+            for lane in range(n):          # elements in C order (the order of itermv)
                 nid[0] += 1
                 regs[nid[0]] = ('lane', x, lane)
                 ids.append(nid[0])
@@ -108,7 +109,7 @@ def run_job(job):
                     out.append({'id': i, 'keys': [int(k) for k in x.keys()], 'coefs': [toint(c) for c in x.values()]})
                 else:
                     x, lane = v[1], v[2]
-                    out.append({'id': i, 'keys': [int(k) for k in x.keys()], 'coefs': [toint(np.asarray(c)[lane]) for c in x.values()]})
+                    out.append({'id': i, 'keys': [int(k) for k in x.keys()], 'coefs': [toint(np.asarray(c).reshape(-1)[lane]) for c in x.values()]})
             return out
 
         def toint(v):
